@@ -56,7 +56,7 @@ fn main() {
             p @ ("C09" | "C11") => {
                 let kf = report::KnownFindings::load();
                 let mut run = report::Run::new(p, tier, "chessx");
-                chessx::run_jobs(&mut run, &kf, p, chessx::plan(p, tier), if tier == "quick" { 50 } else { 1800 }, p);
+                chessx::run_jobs(&mut run, &kf, p, chessx::plan(p, tier), if tier == "quick" { 120 } else { 1800 }, p);
                 run.cov("rule", serde_json::json!("stateless depth-first exploration of all schedules of each small multi-thread program with at most the stated number of pre-emptions, on the real code under a controlling scheduler; an execution is one complete schedule; distinct = distinct (program, thread observations, deadlock) outcomes"));
                 run.finish()
             }
@@ -64,7 +64,7 @@ fn main() {
                 let kf = report::KnownFindings::load();
                 let mut run = report::Run::new("C18", tier, "openx+chessx");
                 openx::add(&mut run, &kf, tier);
-                chessx::run_jobs(&mut run, &kf, "C18", openx::thread_programs(tier == "quick"), if tier == "quick" { 25 } else { 600 }, "C18");
+                chessx::run_jobs(&mut run, &kf, "C18", openx::thread_programs(tier == "quick"), if tier == "quick" { 60 } else { 600 }, "C18");
                 run.cov("rule", serde_json::json!("depth-first over all handle-lifecycle histories up to the stated depth (each executed from scratch on a fresh directory), with an open attempt from this process possible at every step and an open attempt from a child process as the last step; plus all schedules (pre-emption bounded) of concurrent opens"));
                 run.finish()
             }
@@ -81,10 +81,10 @@ fn main() {
                 rawx_run::add(&mut run, &kf, p, tier, if tier == "quick" { 25 } else { 1000 });
                 if p == "C12" {
                     rawx_run::add_crash(&mut run, &kf, "C12", tier, if tier == "quick" { 15 } else { 800 });
-                    chessx::run_jobs(&mut run, &kf, "C12", chessx::plan("C12", tier), if tier == "quick" { 15 } else { 600 }, "C12");
+                    chessx::run_jobs(&mut run, &kf, "C12", chessx::plan("C12", tier), if tier == "quick" { 45 } else { 600 }, "C12");
                 }
                 if p == "C10" {
-                    chessx::run_jobs(&mut run, &kf, "C10", chessx::plan("C10", tier), if tier == "quick" { 30 } else { 1200 }, "C10");
+                    chessx::run_jobs(&mut run, &kf, "C10", chessx::plan("C10", tier), if tier == "quick" { 60 } else { 1200 }, "C10");
                 }
                 run.cov("rule", serde_json::json!(rawx_run::RULE));
                 run.finish()
@@ -157,15 +157,49 @@ fn replay(file: &str) -> i32 {
         eprintln!("cannot read {file}");
         return 2;
     };
-    let doc: serde_json::Value = serde_json::from_str(&s).expect("replay file must be JSON");
+    let mut doc: serde_json::Value = serde_json::from_str(&s).expect("replay file must be JSON");
+    doc["file"] = serde_json::json!(file);
     match doc["replay"]["engine"].as_str().unwrap_or("") {
         "rawx" => rawx_run::replay(&doc),
         "vecx" => vecx_run::replay(&doc),
+        "chessx" => chessx::replay(&doc),
+        "crashx" => rawx_run::replay_crash(&doc),
+        // the enumerating engines re-run their (deterministic) enumeration and report whether
+        // the recorded signature occurs again
+        "codecx" | "eagerx" | "importx" | "lazyx" | "openx" | "versionx" | "bigscan" => replay_by_rerun(&doc),
         e => {
             eprintln!("unknown engine {e}");
             2
         }
     }
+}
+
+fn replay_by_rerun(doc: &serde_json::Value) -> i32 {
+    let property = doc["property"].as_str().unwrap_or("").to_string();
+    let tier = doc["tier"].as_str().unwrap_or("quick").to_string();
+    let want = doc["signature"].as_str().unwrap_or("").to_string();
+    let exe = std::env::current_exe().expect("current_exe");
+    let mut outcomes = Vec::new();
+    for _ in 0..2 {
+        // VERIF_NO_EVIDENCE: the nested run must not rewrite the evidence file
+        let out = std::process::Command::new(&exe)
+            .args([&property, &tier])
+            .env("VERIF_NO_EVIDENCE", "1")
+            .env("VERIF_IGNORE_KNOWN", "1")
+            .output()
+            .expect("nested run");
+        let text = String::from_utf8_lossy(&out.stdout).to_string();
+        let mut hit = Vec::new();
+        let mut lines = text.lines().peekable();
+        while let Some(l) = lines.next() {
+            if l.trim_start().strip_prefix("signature: ").is_some_and(|s| s == want) {
+                let detail = lines.peek().map(|d| d.trim().to_string()).unwrap_or_default();
+                hit.push(format!("{want} :: {detail}"));
+            }
+        }
+        outcomes.push(hit);
+    }
+    finish_replay(doc, &property, outcomes)
 }
 
 pub fn finish_replay(doc: &serde_json::Value, property: &str, outcomes: Vec<Vec<String>>) -> i32 {
@@ -181,7 +215,7 @@ pub fn finish_replay(doc: &serde_json::Value, property: &str, outcomes: Vec<Vec<
         for s in &outcomes[0] {
             println!("replay: {s}");
         }
-        println!("VIOLATION property={property} replay={}", doc["path"]);
+        println!("VIOLATION property={property} replay={}", doc["file"].as_str().unwrap_or("?"));
         1
     }
 }
